@@ -12,9 +12,11 @@ a rotating sample of 8).  Theorems: coq/Properties/C02.v.
 
 Every run REGENERATES coq/Gen/GateSites.v from the non-test code of /repo/src/**/*.rs (gen/gen_gates.py): the
 inventory of the places where an Extensions value is consulted, handed on, declared or constructed, pinned by
-the obligation C02_gate_inventory and mapped row by row to the gates of the models (Model/GateMap.v,
-C02_gate_inventory_mapped, C02_gate_table_checks).  A gate that is added, removed or edited (another flag)
-breaks the obligations and is reported entry by entry with its location; moving code does not."""
+C02_gate_inventory at the level of KEYS (which fn consults which flag; which fn / item carries the set; the
+constants with their values) and mapped key by key to the gates of the models (Model/GateMap.v,
+C02_gate_inventory_mapped, C02_gate_table_checks).  A flag consulted in a fn that did not consult it, a gate
+that disappears or a changed constant breaks the obligations and is reported with its location; rewriting a
+test inside its fn (early return, match, flag read into a local) or moving code does not."""
 import itertools
 import json
 import os
@@ -224,11 +226,15 @@ def gate_inventory():
     """regenerate Gen/GateSites.v and compare with the list in the statement of C02_gate_inventory;
     -> (stats for the evidence, None or (what, replay dict))"""
     inv = gen_gates.regenerate()
-    expected = gen_gates.expected_sites()
+    expected = gen_gates.expected_keys()
     new, gone = gen_gates.diff(inv["items"], expected)
     items = inv["items"]
     gates = [it for it in items if it["kind"] in ("E", "L", "U") and any(not f.endswith("()") for f in it["flags"])]
-    st = {"sites": len(items), "expected": None if expected is None else len(expected),
+    keys = gen_gates.keys_of(items)
+    st = {"pinned_keys": len(keys), "pinned_keys_by_class": dict(sorted(Counter(k[0] for k in keys).items())),
+          "pinned": "gate = (file, fn, flag): the fn consults the flag; carry = (file, fn): declares / stores / hands on / "
+                    "constructs a set without testing a flag; const = the bitflags! definitions with their values",
+          "sites": len(items), "expected": None if expected is None else len(expected),
           "file_rewritten": inv["changed"], "new": new, "gone": gone,
           "by_kind": dict(sorted(Counter(it["kind"] for it in items).items())),
           "kinds": "B bitflags! definition, D declaration, E expression, L let bound to a test, U use of such a "
@@ -242,8 +248,8 @@ def gate_inventory():
     if expected is None:
         what = "Properties/C02.v has no theorem C02_gate_inventory"
     else:
-        what = ("the places where %s consults or constructs an Extensions value differ from the list of "
-                "C02_gate_inventory (gates the gate lemmas of C02 do not know, or a gate that reads another flag):\n"
+        what = ("the functions of %s that consult an extension flag (or carry / define the set) differ from the keys "
+                "of C02_gate_inventory (a gate the gate lemmas of C02 do not know, or a gate that reads another flag):\n"
                 % os.path.join(common.REPO, "src")
                 + "".join("  + in the source, not in the theorem: %s\n" % x for x in new)
                 + "".join("  - in the theorem, not in the source: %s\n" % x for x in gone)).rstrip("\n")
